@@ -142,7 +142,7 @@ def worker_main(argv):
         import traceback
         agg["harness_error"] = f"{type(e).__name__}: {e}\n{traceback.format_exc()[-3000:]}"
     agg["wall_s"] = time.time() - t_start
-    json.dump(agg, out)
+    json.dump(agg, out, default=str)
     out.close()
     faulthandler.cancel_dump_traceback_later()
     # daemon sim threads may be parked after a harness error: leave hard
